@@ -28,6 +28,7 @@ var kinds = []struct {
 	{"write_fault", runWriteFaults},
 	{"encode_session", runEncodeSession},
 	{"ply_meshstream", runPLYMeshStream},
+	{"save_paths", runSavePaths},
 	{"concurrent_export", nil}, // runs under the goroutine scheduler: see runCase
 }
 
@@ -61,6 +62,9 @@ func runCase(t *testing.T, c *Case, src, sched *choice.Source, out *wproto.Out, 
 	out.Count("files", st.Files)
 	out.Count("sim_bytes", st.Bytes)
 	out.Count("deliveries", st.Deliveries)
+	for k, v := range st.Probes {
+		out.Count(k, v)
+	}
 	out.Count("fault.FRAG", st.Frags)
 	out.Count("fault.ZERO", st.Zero)
 	out.Count("fault.DATA+EOF", st.DataEOF)
